@@ -19,7 +19,7 @@ impl<'a> WireFormat<'a> for A {
     where
         Self: Sized,
     {
-        let address = u32::from_be_bytes(data[*position..*position + 4].try_into()?);
+        let address = u32::from_be_bytes(data.get(*position..*position + 4).ok_or(crate::SimpleDnsError::InsufficientData)?.try_into()?);
         *position += 4;
         Ok(Self { address })
     }
